@@ -105,7 +105,10 @@ def decode_tok(layout, sol_dim, get):
         return None
     for c in layout:
         name = EXTRA_DESC[c][0]
-        v = get(name)
+        try:
+            v = get(name)
+        except KeyError:
+            return None         # the entry lacks a field: not a complete entry of any candidate
         exp = extra_value(c, tok)
         # an object field returns the very kind of object that was stored (not, e.g., a 0-d array around it)
         ok = (type(v) is type(exp) and v == exp) if c == "o" else np.array_equal(np.asarray(v), np.asarray(exp))
@@ -549,7 +552,10 @@ class Run:
                     if f:
                         return f
                     continue
-                scale = max(abs(t0), max(abs(x[1]) for x in a))
+                # rounding budget of the documented form w*t + (1-w)*m: the two products (w = (1-a)^k is 0 for a = 1,
+                # so that a huge |t| then contributes nothing)
+                w = (1 - lr) if single else (1 - lr)**k
+                scale = max(w * abs(t0), max(abs(x[1]) for x in a))
                 if not close(got["thr"], exp_thr, dt, scale):
                     f = self.F_("C05", "oracle", f"{where}: cell {c} threshold {got['thr']} ≠ (1-a)^k t + (1-(1-a)^k) m "
                                 f"= {exp_thr} (t={t0}, k={k}, m={mean}, a={lr})")
@@ -1038,7 +1044,7 @@ def gen_case(rng, profile="mixed", kinds=("grid", "cvt", "sb"), cma=False, dtype
         if profile == "gap":
             # a threshold_min so far below the objectives that objective - threshold rounds in the archive dtype
             case["tmin"] = q(F(-1024) if case["dtype"] == "f32" else rng.choice([F(-2**60), F(-2**54)]))
-            case["lr"] = q(rng.choice([F(0), F(1, 2**20), F(1, 4)]))
+            case["lr"] = q(rng.choice([F(0), F(1, 2**20), F(1, 4), F(1), F(1)]))
     elif case["kind"] != "sb" and rng.random() < 0.3:
         case["lr"] = "1"          # explicit learning_rate=1 with threshold_min=-inf is the elitist setting too
     case["ops"] = gen_history(rng, case, profile)
